@@ -18,8 +18,9 @@ def build_vfunc(scratch):
 def evidence(prop, tier, seed, level, cov, assumptions, wall, viol):
     ev = {"property_id": prop, "tier": tier, "seed": seed, "level": level, "coverage": cov,
           "assumptions": assumptions, "wall_s": round(wall, 1), "violations": viol}
-    os.makedirs(os.path.join(vlib.VERIF, "evidence"), exist_ok=True)
-    json.dump(ev, open(os.path.join(vlib.VERIF, "evidence", prop + ".json"), "w"), indent=1)
+    edir = os.environ.get("VERIF_EVIDENCE_DIR", os.path.join(vlib.VERIF, "evidence"))
+    os.makedirs(edir, exist_ok=True)
+    json.dump(ev, open(os.path.join(edir, prop + ".json"), "w"), indent=1)
 
 def run_c09(prop, tier, seed):
     t0 = time.time()
@@ -61,7 +62,7 @@ def run_c09(prop, tier, seed):
         cov["history_calls_on_one_discovery_object"] = summ.get("history_calls", 0)
         cov["history_mismatches"] = summ.get("history_mismatches", 0)
         if bad or summ.get("history_mismatches"):
-            rp = os.path.join(vlib.VERIF, "evidence", "replay"); os.makedirs(rp, exist_ok=True)
+            rp = os.path.join(os.environ.get("VERIF_EVIDENCE_DIR", os.path.join(vlib.VERIF, "evidence")), "replay"); os.makedirs(rp, exist_ok=True)
             dst = os.path.join(rp, "C09-pairs.json")
             json.dump({"family": "chunk", "violating_pairs": len(bad), "smallest": bad[0] if bad else None,
                        "history_mismatches": summ.get("history_mismatches"), "first": summ.get("first_mismatch")}, open(dst, "w"))
@@ -196,7 +197,7 @@ def run_c19(prop, tier, seed):
         died = sum(1 for t in lines for e in (t.get("evs") or []) if e.get("ev") == "Died")
         skipped = [t for t in lines if t.get("skipped") and t["skipped"] != "process is down"]
         viols = []
-        rp = os.path.join(vlib.VERIF, "evidence", "replay"); os.makedirs(rp, exist_ok=True)
+        rp = os.path.join(os.environ.get("VERIF_EVIDENCE_DIR", os.path.join(vlib.VERIF, "evidence")), "replay"); os.makedirs(rp, exist_ok=True)
         smap = {s["id"]: s for s in allsch}
         for run, line, pid, msg in bad:
             dst = os.path.join(rp, "C19-seed%d-run%d.json" % (seed, run))
@@ -282,7 +283,7 @@ def run_c18(prop, tier, seed):
                        "Higher/Equal/Lower, the three gate expressions and the parser are evaluated for every pair and judged by MonVersion.tla"}
         dst = None
         if viol:
-            rp = os.path.join(vlib.VERIF, "evidence", "replay"); os.makedirs(rp, exist_ok=True)
+            rp = os.path.join(os.environ.get("VERIF_EVIDENCE_DIR", os.path.join(vlib.VERIF, "evidence")), "replay"); os.makedirs(rp, exist_ok=True)
             dst = os.path.join(rp, "C18-pairs.json")
             json.dump({"family": "version", "bad_pairs": nbad, "example": m.group(3), "strings": wellformed_bad}, open(dst, "w"))
         evidence(prop, tier, seed, "model_checking", cov,
@@ -358,7 +359,7 @@ def run_c20(prop, tier, seed):
                 if e.get("ev") == "Return":
                     results[e["result"]] = results.get(e["result"], 0) + 1
         viols = []
-        rp = os.path.join(vlib.VERIF, "evidence", "replay"); os.makedirs(rp, exist_ok=True)
+        rp = os.path.join(os.environ.get("VERIF_EVIDENCE_DIR", os.path.join(vlib.VERIF, "evidence")), "replay"); os.makedirs(rp, exist_ok=True)
         smap = {s["id"]: s for s in allsch}
         seen = set()
         for run, line, pid, msg in bad:
